@@ -159,3 +159,62 @@ func TestSweepEngine(t *testing.T) {
 	}
 	fmt.Printf("indices=%d runs=%d wall=%v extra=%v\n", n, runs, time.Since(start), wr.Extra)
 }
+
+// TestSweepStore is a development helper for the store engine.
+func TestSweepStore(t *testing.T) {
+	prop := os.Getenv("SIM_PROP")
+	if prop == "" {
+		t.Skip()
+	}
+	n := envInt("SIM_N", 100)
+	classes := map[string]int{}
+	example := map[string]string{}
+	start := time.Now()
+	ops := 0
+	for idx := envInt("SIM_FROM", 0); idx < envInt("SIM_FROM", 0)+n; idx++ {
+		seed := RunSeed(uint64(envInt("SIM_BASE", 1)), "store", prop, idx)
+		spec := GenStore(seed, prop, idx)
+		r := RunStore(t, spec)
+		ops += r.Ops
+		if r.Harness != "" {
+			fmt.Println("HARNESS", idx, r.Harness)
+			continue
+		}
+		for _, v := range filterProp(r.Violations, prop, os.Getenv("SIM_ALL") != "") {
+			classes[v.Class]++
+			if _, ok := example[v.Class]; !ok {
+				example[v.Class] = fmt.Sprintf("[idx %d] %s", idx, v.Msg)
+			}
+		}
+	}
+	var ks []string
+	for k := range classes {
+		ks = append(ks, k)
+	}
+	sort.Strings(ks)
+	for _, k := range ks {
+		fmt.Printf("%5d  %s   %s\n", classes[k], k, trunc(example[k], 160))
+	}
+	fmt.Printf("indices=%d ops=%d wall=%v\n", n, ops, time.Since(start))
+}
+
+// TestDumpStore prints the trace of one store run (SIM_PROP, SIM_IDX).
+func TestDumpStore(t *testing.T) {
+	prop := os.Getenv("SIM_PROP")
+	if prop == "" {
+		t.Skip()
+	}
+	idx := envInt("SIM_IDX", 0)
+	seed := RunSeed(uint64(envInt("SIM_BASE", 1)), "store", prop, idx)
+	spec := GenStore(seed, prop, idx)
+	b, _ := json.Marshal(spec.Clients)
+	fmt.Println(spec.Backend, len(spec.Plans), string(b))
+	r := RunStore(t, spec)
+	for _, l := range r.Trace {
+		fmt.Println(l)
+	}
+	for _, v := range r.Violations {
+		fmt.Println("VIOL", v.Class, "::", v.Msg)
+	}
+	fmt.Println("harness:", r.Harness)
+}
